@@ -437,6 +437,9 @@ def _queries(case, J, rng, budget):
         if rng.random() < 0.5:
             Q = Q[::-1]
         ev = {v: rng.choice(J.states[v]) for v in E}
+        for v, st in (case.get("prefer_ev") or {}).items():   # evidence states that make a rare configuration the dominant one
+            if v in ev and i % 4 != 3:
+                ev[v] = J.states[v][st]
         res.append((Q, ev, i % 3 != 2, None))
     return res
 
@@ -678,6 +681,9 @@ def gen_bn(tier, seed):
                 for rep in range(2):
                     k += 1
                     yield _bn_case(rng, names, edges, style, zeros=(k % 3 == 0), allow_one=(k % 4 == 1), qseed=k)
+    for i in range(6 if tier == "quick" else 24):
+        k += 1
+        yield _rare_bn_case(rng, 3 + i % 2, ("str", "int", "mixed")[i % 3], k)
     # four-node networks: seeded sample (quick) / all 446 connected DAGs (thorough)
     names = NAMES[:4]
     dags = [e for e in O.all_dags(4, names) if _connected(names, e)]
@@ -687,6 +693,28 @@ def gen_bn(tier, seed):
         k += 1
         yield _bn_case(rng, names, edges, ("str", "int", "mixed")[k % 3], zeros=(k % 3 == 0), allow_one=(k % 5 == 1), qseed=k,
                        nq=16 if tier == "quick" else 24)
+
+
+def _rare_bn_case(rng, n, style, qseed):
+    """chain v0 -> v1 -> ... whose second variable has a state of prior mass ~2^-33 that dominates once v0's rare state is observed:
+    sepset beliefs then carry entries far below any absolute closeness tolerance which still decide the posterior."""
+    names = NAMES[:n]
+    edges = [[names[i], names[i + 1]] for i in range(n - 1)]
+    cards = {v: rng.choice((2, 3)) for v in names}
+    cards[names[0]] = 2
+    spec = O.random_bn_spec(rng, names, edges, cards, style, zeros=False, parent_shuffle=False)
+    eps = Fraction(1, 2 ** 33)
+    a, b = names[0], names[1]
+    spec["cpd"][a]["table"] = [[1 - eps], [eps]]
+    tb = spec["cpd"][b]["table"]
+    last = cards[b] - 1
+    tb[0][0] += tb[last][0] - eps
+    tb[last][0] = eps
+    rest = [Fraction(1, 10 * last)] * last
+    for i in range(last):
+        tb[i][1] = rest[i]
+    tb[last][1] = Fraction(9, 10)
+    return {"kind": "bn", "bn": O.spec_to_json(spec), "ve": [], "qseed": qseed, "nq": 24, "prefer_ev": {a: 1}}
 
 
 def _bn_case(rng, names, edges, style, zeros, allow_one, qseed, nq=24):
@@ -848,7 +876,7 @@ def groups(tier):
     return [
         Group("bn", gen_bn, check_model, nontrivial, seed_fanout=fan, engine="E3",
               bound="all connected DAGs <= 3 nodes x state-name styles str/int/mixed, cards in {1,2,3}, zeros in 1/3 of the CPDs; 72 seeded (thorough: all 446) "
-                    "connected 4-node DAGs; per model: tree structure, calibrate + max_calibrate beliefs vs brute-force (max-)marginals, "
+                    "connected 4-node DAGs; 6 (24) chains with a state of prior mass 2^-33 that dominates under the preferred evidence; per model: tree structure, calibrate + max_calibrate beliefs vs brute-force (max-)marginals, "
                     "<= 24 (variables, evidence-by-state-name, joint) queries with |variables| <= 3, |evidence| <= 2, virtual evidence on 1-2 variables; "
                     "VariableElimination cross-check"),
         Group("mn", gen_mn, check_model, nontrivial, seed_fanout=fan, engine="E3",
